@@ -113,6 +113,8 @@ def main():
     tstat, _ = R.translate()
     # 2. prove
     pr = prove(pid, tier)
+    if 'translator' in tstat:
+        pr['ok'] = False; pr['broken'].append('the translator could not read /repo/src (%s): the model runs on the transcribed facts, nothing ties it to this source' % tstat['translator'])
     # 3. correspond
     ok_h, out_h, dt_h = R.build_harness()
     if not ok_h:
@@ -227,14 +229,19 @@ def main():
             # literal-guided search: numbers that are new in the source as sizes / lengths / depths / values at every decoder
             import magic
             nums = magic.new_literals(os.path.join(R.LEAN, 'CosetGen', 'Inventory.lean'), os.path.join(VERIF, 'pinned', 'CosetGen', 'Inventory.lean'))
-            if nums:
-                mops = magic.magic_ops(nums[:12])
+            strs, chrs = magic.new_texts(os.path.join(R.LEAN, 'CosetGen', 'Inventory.lean'), os.path.join(VERIF, 'pinned', 'CosetGen', 'Inventory.lean'))
+            if nums or strs:
+                mops = magic.magic_ops(nums[:12]) + magic.text_ops(strs, chrs)
                 ml = [o['op'] for o in mops]
                 mi, _ = R.run_impl(ml)
                 okp2, _o = R.build_pinned_driver()
                 mm = R.run_model(ml, pinned=True)[0] if okp2 else [None] * len(ml)
-                notes.append('literal-guided search: new literals %s, %d operations' % (nums[:12], len(ml)))
+                notes.append('literal-guided search: new literals %s, new strings %s, %d operations' % (nums[:12], strs[:8], len(ml)))
                 for o, a, b in zip(mops, mi, mm):
+                    if a in ('panic', 'abort', 'timeout') and b not in ('panic', None) and pid == 'C01':
+                        found.append(dict(op=o['op'], meta=o['meta'], impl=a, model=b, why='decoding an input built around a literal that is new in the source panics')); continue
+                    if o['meta']['k'] == 'magic:text-label-repeated' and a is not None and a.startswith('ok') and pid in ('C08', 'C10', 'C12', 'C18'):
+                        found.append(dict(op=o['op'], meta=o['meta'], impl=a, model=b, why='a map that repeats a label (a text new in the source) was accepted')); continue
                     if b is not None and a is not None and P.canon_nan(a) != P.canon_nan(b) and not (a.startswith('err') and b.startswith('err')):
                         c = dict(op=o['op'], meta=o['meta'], impl=a, model=b, why='implementation differs from the proved model on an input built around a literal that is new in the source')
                         # for a property that fixes the output, this input fails it; for a predicate on the implementation's own
